@@ -161,6 +161,7 @@ def run_conc(ctx, case, want_sched=False):
     sched.critical_functions = CRITICAL
     sched.record = bool(case.get("record"))
     PATCH.current = sched
+    restore = PATCH.swap_live_locks(sched)  # locks the library keeps at module / class level, wherever they are
     try:
         world = build_world(wd, False)  # decoration happens here: the per-class locks are scheduler-aware
         fns = [trigger_fn(world, t) for t in triggers]
@@ -170,6 +171,7 @@ def run_conc(ctx, case, want_sched=False):
             raise HarnessError(f"C19 scheduler: {e}")
     finally:
         PATCH.current = None
+        restore()
     for t, want in zip(threads, ref_res):
         if t.error is not None:
             if want[0] == "raise" and type(t.error).__name__ == want[1]:
